@@ -3,7 +3,6 @@ use vstd::prelude::*;
 use std::slice;
 use crate::sys::PollEvent;
 use crate::token::TokenInner;
-
 //@ include regtoken_body
 //@ include loop_types_body
 } // mod loop_logic
@@ -13,12 +12,15 @@ use vstd::prelude::*;
 use std::{cell::RefCell, collections::HashMap, rc::Rc, sync::Arc, time::{Duration, Instant}};
 use std::os::unix::io::{AsFd, AsRawFd, BorrowedFd as Borrowed, RawFd as Raw};
 use crate::polling::{self, Event, Events, PollMode, Poller};
-use crate::sources::timer::TimerWheel;
+use crate::sources::timer::{TimerWheel, TimeoutData};
+use crate::ext_time::*;
+use crate::ext_dur::*;
+use vstd::multiset::Multiset;
 use crate::token::TokenInner;
 use crate::RegistrationToken;
-
 //@ include sys_tokens_body
 //@ include sys_poll_body
+//@ include poll_slices_body
 } // mod sys
 pub use crate::sys::{Interest, Mode, Poll, Readiness, Token, TokenFactory};
 pub mod sources {
@@ -26,17 +28,17 @@ use vstd::prelude::*;
 use std::{cell::{RefCell, RefMut}, ops::{BitOr, BitOrAssign}, rc::Rc};
 pub use crate::loop_logic::EventIterator;
 use crate::{sys::TokenFactory, Poll, Readiness, RegistrationToken, Token};
-
 //@ include sources_postaction_body
 //@ include sources_traits_body
-//@ include sources_dispatch_body
-//@ include sources_idle_body
 pub mod timer {
 use vstd::prelude::*;
+use vstd::multiset::Multiset;
 use std::{cell::RefCell, collections::BinaryHeap, rc::Rc, time::{Duration, Instant}};
+use std::cmp::Ordering;
+use crate::ext_time::*;
 use crate::{EventSource, Poll, PostAction, Readiness, Token, TokenFactory};
 //@ include timer_types_body
+//@ include timer_wheel_body
 } // mod timer
 } // mod sources
 pub use crate::sources::{PostAction, EventSource};
-pub(crate) use crate::sources::{EventDispatcher, AdditionalLifecycleEventsSet};
